@@ -287,15 +287,17 @@ def main(tier, seed, only=None):
     for c, n in picks:
         if not thorough and n.endswith("more_area"):
             continue        # the largest captured LP (seaweed + expansion): ~10 s per exact query on an idle machine, kept for the thorough tier
-        inst.append(dict(country=c, scenario=n, NM=48 if not thorough else 120, timeout_s=150 if not thorough else 900))
+        # thorough: 120 months for the runs without resilient foods (light LPs), 72 months for the resilient ones (exact queries on their LPs grow quickly with the horizon)
+        inst.append(dict(country=c, scenario=n, NM=48 if not thorough else (120 if "resilient" not in n else 72), timeout_s=150 if not thorough else 900))
     if not thorough:
         inst += [dict(country=c, scenario=n, NM=72) for c, n in (("FRA", names[0]), ("NZL", names[-1]), ("IND", names[1 % len(names)]), ("JPN", names[2 % len(names)]))]
     if thorough:
         rng = random.Random(seed)
         import pandas as pd
         codes = list(pd.read_csv(vlib.REPO + "/data/no_food_trade/computer_readable_combined.csv")["iso3"])
+        light = [n for n in names if "resilient" not in n]
         for c in rng.sample(codes, 12):
-            inst.append(dict(country=c, scenario=names[rng.randrange(len(names))], NM=72))
+            inst.append(dict(country=c, scenario=light[rng.randrange(len(light))], NM=72, timeout_s=900))
     groups = [
         dict(name="standin_equals_real_pulp", fn="worker_standin", cases=st, replay=replay_standin, functions=["Optimizer.add_variables_and_constraints_to_model run twice: with real PuLP and with the stand-in"],
              bounds="N in {3,14}, both round types, storage on/off, 2 flag sets, concrete seeded supplies", symbolic="LP variables (supplies concrete)", assumptions=["relaxed equivalence 1e-9 (PuLP folds coefficients in floats)"],
@@ -307,7 +309,7 @@ def main(tier, seed, only=None):
              symbolic="every supply and every allocation", assumptions=["supplies >= 0", "coefficients concrete", "epsilon-relaxed entailment 1e-9", "the specification LP in lpsym/spec.py is the trusted statement of 'physically feasible'"],
              stubs=["lpsym/standin.py (validated in group standin_equals_real_pulp)"], outside=["horizons beyond 14-15 months for the parametric statement"]),
         dict(name="cbc_value_is_the_optimum", fn="worker_instance", cases=inst, replay=replay_instance, functions=["ScenarioRunnerNoTrade.run_model_no_trade (real run)", "Optimizer.run_optimizations_on_constraints (wrapped, LpProblem.to_dict captured)"],
-             bounds="countries/presets %s at %d months; all three rounds each" % (picks, 48 if not thorough else 120), symbolic="every LP variable of the captured first-stage model (exact rationals of the float coefficients)",
+             bounds="countries/presets %s at %s months; all three rounds each; every exact query under a hard wall-clock limit (150 s quick, 900 s thorough)" % (picks, sorted({c["NM"] for c in inst})), symbolic="every LP variable of the captured first-stage model (exact rationals of the float coefficients)",
              assumptions=["tolerance 1e-4 relative (CBC runs with gapRel=1e-5)"], stubs=[], outside=["instances not captured"], min_completed=1),
     ]
     vlib.run_groups(rep, MOD, groups, seed, only)
